@@ -11,6 +11,7 @@ import (
 	"sync"
 	"sync/atomic"
 	"testing"
+	"time"
 
 	evalfilter "github.com/skx/evalfilter/v2"
 	"github.com/skx/evalfilter/v2/object"
@@ -45,6 +46,10 @@ type person struct {
 	Pat   string
 }
 
+// workloadLimit: a workload takes seconds; one that has not finished after
+// this long is blocked, not slow.
+const workloadLimit = 240 * time.Second
+
 // patCounter makes run-time patterns unique within the process: thousands of
 // distinct patterns pass through the process-wide cache of compiled regexps.
 var patCounter int64
@@ -73,7 +78,12 @@ func personFor(i int) person {
 // still matches the object's e-mail address).
 func withFreshPattern(o interface{}) interface{} {
 	n := atomic.AddInt64(&patCounter, 1)
-	pat := fmt.Sprintf("^u[0-9]@|zz%dzz", n)
+	return withPattern(o, fmt.Sprintf("^u[0-9]@|zz%dzz", n))
+}
+
+// withPattern gives the object the pattern named (it still matches the
+// object's e-mail address).
+func withPattern(o interface{}, pat string) interface{} {
 	switch x := o.(type) {
 	case person:
 		x.Pat = pat
@@ -239,6 +249,7 @@ func runWorkload(w *Workload) error {
 	}
 	// values every private evaluator is given: the same objects for all
 	hostVars := sharedHostVars()
+	wid := atomic.AddInt64(&patCounter, 1)
 	// goroutines with their own evaluators
 	for g, script := range w.Own {
 		wg.Add(1)
@@ -258,7 +269,13 @@ func runWorkload(w *Workload) error {
 				}
 				_ = seq.Prepare()
 				for k := 0; k < w.OwnRuns; k++ {
+					// a pattern nobody has used before: one of its own, or - every
+					// other run - the one all goroutines of this workload meet for
+					// the first time at the same moment
 					p := withFreshPattern(objectFor(g + k))
+					if k%2 == 0 {
+						p = withPattern(objectFor(g+k), fmt.Sprintf("^u[0-9]@|ww%d_%d_%dzz", wid, round, k))
+					}
 					a, err := e.Execute(p)
 					if err != nil {
 						errs <- fmt.Errorf("own evaluator %d: %v", g, err)
@@ -274,7 +291,15 @@ func runWorkload(w *Workload) error {
 		}(g, script)
 	}
 	close(start)
-	wg.Wait()
+	finished := make(chan struct{})
+	go func() { wg.Wait(); close(finished) }()
+	select {
+	case <-finished:
+	case <-time.After(workloadLimit):
+		// calls that never come back: a lock that is never released, a wait
+		// for something that cannot happen (the goroutines are left behind)
+		return fmt.Errorf("the workload had not finished after %v: calls of Run/Execute/Prepare are blocked", workloadLimit)
+	}
 	close(errs)
 	for err := range errs {
 		return err
